@@ -109,26 +109,28 @@ def gen(ctx):
     step = 1 if ctx.tier == 'thorough' else 1
     for code in codes:
         for n in range(0, 301, step):
-            four = rng.chance(1, 2) if code not in (2, 7) else (n % 2 == 0)
-            if code in (2, 17) and rng.chance(2, 3):
-                # structured AS path octets so that some lengths are valid
-                asz = 4 if (four or code == 17) else 2
-                v = b''
-                while len(v) + 2 + asz <= n:
-                    k = min((n - len(v) - 2) // asz, rng.choice([1, 2, 3, 255]))
-                    v += bytes([rng.choice([1, 2, 2, 3, 4]), k]) + bytes(rng.below(256) for _ in range(k * asz))
-                    if rng.chance(1, 2):
-                        break
-                v = v + bytes(rng.below(5) for _ in range(n - len(v)))
-            else:
-                v = bytes(rng.below(256) for _ in range(n))
-            flags = CANON[code]
-            ext = n > 255 or rng.chance(1, 5)
-            if rng.chance(1, 6):
-                flags = rng.choice([0x00, 0x40, 0x80, 0xc0, 0xe0, 0x4f])
-            hdr = bytes([flags | 0x10, code]) + len(v).to_bytes(2, 'big') if ext else bytes([flags & 0xef, code, len(v)])
-            lines.append('RAW %d %d %s' % (len(lines), 1 if four else 0, (hdr + v + bytes(rng.below(256) for _ in range(rng.below(3)))).hex()))
-            meta.append(('raw', code, four, v, (flags | 0x10) if ext else (flags & 0xef)))
+            # both ASN widths for the types whose length rule depends on the width (an 8-octet AGGREGATOR is well-formed on a
+            # four-octet session only, a 6-octet one on a two-octet session only)
+            for four in ([False, True] if code in (2, 7) else [rng.chance(1, 2)]):
+                if code in (2, 17) and rng.chance(2, 3):
+                    # structured AS path octets so that some lengths are valid
+                    asz = 4 if (four or code == 17) else 2
+                    v = b''
+                    while len(v) + 2 + asz <= n:
+                        k = min((n - len(v) - 2) // asz, rng.choice([1, 2, 3, 255]))
+                        v += bytes([rng.choice([1, 2, 2, 3, 4]), k]) + bytes(rng.below(256) for _ in range(k * asz))
+                        if rng.chance(1, 2):
+                            break
+                    v = v + bytes(rng.below(5) for _ in range(n - len(v)))
+                else:
+                    v = bytes(rng.below(256) for _ in range(n))
+                flags = CANON[code]
+                ext = n > 255 or rng.chance(1, 5)
+                if rng.chance(1, 6):
+                    flags = rng.choice([0x00, 0x40, 0x80, 0xc0, 0xe0, 0x4f])
+                hdr = bytes([flags | 0x10, code]) + len(v).to_bytes(2, 'big') if ext else bytes([flags & 0xef, code, len(v)])
+                lines.append('RAW %d %d %s' % (len(lines), 1 if four else 0, (hdr + v + bytes(rng.below(256) for _ in range(rng.below(3)))).hex()))
+                meta.append(('raw', code, four, v, (flags | 0x10) if ext else (flags & 0xef)))
     for _ in range(300 if ctx.tier == 'quick' else 6000):
         code = rng.choice([0, 11, 12, 13, 14, 15, 19, 22, 23, 33, 36, 40, 127, 129, 200, 254])
         n = rng.choice([0, 1, 4, 254, 255, 256, 300, 1000])
